@@ -396,6 +396,17 @@ fn sep_after_expansion(tokens: &types::Tokens, idx: usize, before: &str, after: 
     // (a leading `NAME=value` word must keep its empty tag to be taken as
     // an assignment; its value is never looked at for operators)
     let leading_assignment = tokens[..=idx].iter().all(|x| x.0.is_empty() && tools::is_env(&x.1));
+    // a result that brings in `$(...)` or a pair of backquotes would be run
+    // by the substitution pass, which comes later and also looks into
+    // double-quoted words: such a word gets the single-quote tag
+    let brings_substitution = !substitution_spans(after).is_empty()
+        && substitution_spans(before).is_empty();
+    if (sep.is_empty() || sep == "\"") && brings_substitution && !leading_assignment {
+        return "'".to_string();
+    }
+    // (operators inside the text of a substitution the word itself has
+    // belong to that inner command)
+    let (before, after) = (&strip_substitutions(before), &strip_substitutions(after));
     // a brace list or range that the result brings in is data as well: the
     // brace passes run after this one
     let brings_operators = has_operator_chars(after) && !has_operator_chars(before);
@@ -482,7 +493,15 @@ pub fn expand_glob(tokens: &mut types::Tokens) {
     for (i, result) in buff.iter().rev() {
         tokens.remove(*i);
         for (j, token) in result.iter().enumerate() {
-            let sep = if token.contains(' ') || has_operator_chars(token) { "\"" } else { "" };
+            // a file name is data for the passes that follow, whatever it
+            // looks like
+            let sep = if !substitution_spans(token).is_empty() {
+                "'"
+            } else if token.contains(' ') || has_operator_chars(token) || has_brace_expression(token) {
+                "\""
+            } else {
+                ""
+            };
             tokens.insert(*i + j, (sep.to_string(), token.clone()));
         }
     }
@@ -1104,7 +1123,11 @@ fn substitution_spans(text: &str) -> Vec<(usize, usize)> {
     spans
 }
 
-fn do_command_substitution(sh: &mut Shell, tokens: &mut types::Tokens) {
+/// `written`: for the leading `NAME=value` words of the line, whether the
+/// word as written had a substitution in it. In the others whatever looks
+/// like one now was brought in by the parameter pass and is data (these
+/// words cannot be given a quote tag: they would not be assignments then).
+fn do_command_substitution(sh: &mut Shell, tokens: &mut types::Tokens, written: &[bool]) {
     for idx in 0..tokens.len() {
         let (sep, token) = tokens[idx].clone();
         if sep == "`" {
@@ -1114,9 +1137,14 @@ fn do_command_substitution(sh: &mut Shell, tokens: &mut types::Tokens) {
         if sep == "'" {
             continue;
         }
+        if sep.is_empty() && written.get(idx) == Some(&false) && tools::is_env(&token) {
+            continue;
+        }
 
         let with_dollar = sep != "\\" && should_do_dollar_command_extension(&token);
-        let with_dot = (sep == "\"" || sep.is_empty()) && token.matches('`').count() >= 2;
+        // (a single-quoted value, `name='... `cmd` ...'`, is text)
+        let with_dot = (sep == "\"" || sep.is_empty()) && token.matches('`').count() >= 2
+            && !libs::re::re_contains(&token, r"='.*`.*`.*'$");
         if !with_dollar && !with_dot {
             continue;
         }
@@ -1143,11 +1171,15 @@ pub fn do_expansion(sh: &mut Shell, tokens: &mut types::Tokens) {
 /// Expansions of words that are not a command line, e.g. the list of
 /// a `for` loop: none of them is a command name, so none is an alias.
 pub fn do_expansion_of_words(sh: &mut Shell, tokens: &mut types::Tokens) {
+    let written_substitutions: Vec<bool> = tokens.iter()
+        .take_while(|x| x.0.is_empty() && tools::is_env(&x.1))
+        .map(|x| !substitution_spans(&x.1).is_empty())
+        .collect();
     expand_home(tokens);
     expand_env(sh, tokens);
     expand_brace(tokens);
     expand_glob(tokens);
-    do_command_substitution(sh, tokens);
+    do_command_substitution(sh, tokens, &written_substitutions);
     expand_brace_range(tokens);
 }
 
